@@ -1,6 +1,7 @@
 package main
 
 import (
+	"sort"
 	"fmt"
 	"strings"
 
@@ -174,6 +175,16 @@ func runRbcFair(r *prng.R, s *out.Sink, tier string) {
 		for i := range ids {
 			ids[i] = uint16(100*(k%3) + i*3 + 1)
 		}
+		if k%2 == 1 {
+			// identifiers from the corners of the 16-bit range (0 is a legal identifier, and is what the zero value of an
+			// acknowledgement's fields looks like)
+			ids = pickIDs(r, n)
+			sort.Slice(ids, func(i, j int) bool { return ids[i] < ids[j] })
+			if k%4 == 1 {
+				ids[0] = 0
+			}
+			s.Count(fmt.Sprintf("ids/with-zero=%v", ids[0] == 0))
+		}
 		p := mkPools(r)
 		bs, ps := genWorkload(r, ids)
 		fr := newFairRun(s, ids, true)
@@ -258,6 +269,9 @@ func runRbcFair(r *prng.R, s *out.Sink, tier string) {
 	if tier == "thorough" {
 		limit = 200000
 	}
+	n0 := exhaust([]uint16{0, 1, 2}, []bcastW{{1, 1, 0}}, []p2pW{{2, 0, 0}}, limit)
+	s.Extra["complete_orders_N3_with_party_0"] = n0
+	s.N += n0
 	n1 := exhaust([]uint16{1, 2, 3}, []bcastW{{1, 1, 0}}, nil, limit)
 	n2 := exhaust([]uint16{1, 2}, []bcastW{{1, 1, 0}, {2, 1, 1}, {1, 2, 2}}, []p2pW{{1, 2, 0}}, limit)
 	s.Extra["complete_orders_N3_one_sender"] = n1
